@@ -17,7 +17,7 @@ use std::sync::{Arc, Mutex};
 pub const DEF: PropDef = PropDef {
     id: "C10",
     level: "model_checking",
-    rule: "single-thread: every in-order stream of <=4 items (thorough <=5), each item a (triple from a 3-triple alphabet, gap in {0,1,2} to the previous timestamp) pair, fed to a real single-window RSPEngine built with RSPBuilder for {RSTREAM, ISTREAM, DSTREAM} x (width,slide) in {(3,1),(2,2),(4,2),(3,2)} x 6 query/rule configurations (one pattern, two-pattern join, pattern over a derived predicate; no rules, subclass rule, two-step chain, inverse-property rule; alphabets contain a triple that is also derivable, so base and derived facts coincide and re-arrive after eviction); oracle per firing: window content from a probe CSPARQLWindow with identical parameters, rows = BGP answers over content + naive rule closure of the content, passed through the R2S reference (all / new / vanished w.r.t. the previous firing); the emitted row sequence must be the concatenation of permutations of the expected per-firing multisets. Multi-thread: the same cases for streams of <=3 items (thorough <=4) in OperationMode::MultiThread under the baton scheduler (hook H1): every schedule with <= 2 preemptions (thorough: streams of <=4 items; stateless DFS) must emit exactly the single-thread sequence, without deadlock. plus a long-stream family (12 items, ~11 firings, producer far ahead of the worker) under every schedule with <= 1 (thorough 2) preemptions. states = engine runs (one per stream prefix-closed history), transitions = stream items fed, traces = complete executions (streams x schedules). Non-trivial = case whose expected output is non-empty and has >= 2 firings; distinct by (configuration, stream).",
+    rule: "single-thread: every in-order stream of <=4 items (thorough <=5), each item a (triple from a 3-triple alphabet, gap in {0,1,2} to the previous timestamp) pair, fed to a real single-window RSPEngine built with RSPBuilder for {RSTREAM, ISTREAM, DSTREAM} x (width,slide) in {(3,1),(2,2),(4,2),(3,2)} x 6 query/rule configurations (one pattern, two-pattern join, pattern over a derived predicate; no rules, subclass rule, two-step chain, inverse-property rule; alphabets contain a triple that is also derivable, so base and derived facts coincide and re-arrive after eviction); oracle per firing: window content from a probe CSPARQLWindow with identical parameters, rows = BGP answers over content + naive rule closure of the content, passed through the R2S reference (all / new / vanished w.r.t. the previous firing); the emitted row sequence must be the concatenation of permutations of the expected per-firing multisets. Multi-thread: the same cases for streams of <=3 items (thorough <=4) in OperationMode::MultiThread under the baton scheduler (hook H1): every schedule with <= 2 preemptions (thorough: streams of <=4 items; stateless DFS) must emit exactly the single-thread sequence, without deadlock. plus a sparse-stream family (the same products over streams with gaps {1,5}, which exceed every width: windows close EMPTY between non-empty firings and ISTREAM/DSTREAM must difference against the empty firing) and a long-stream family (12 items, ~11 firings, producer far ahead of the worker) under every schedule with <= 1 (thorough 2) preemptions. states = engine runs (one per stream prefix-closed history), transitions = stream items fed, traces = complete executions (streams x schedules). Non-trivial = case whose expected output is non-empty and has >= 2 firings; distinct by (configuration, stream).",
     assumptions: &[
         "the probe window is the real CSPARQLWindow (its own correctness is C09's subject)",
         "stop()'s flush is excluded (it reports all open windows by design; the repository's tests avoid it too): engines are dropped",
@@ -464,6 +464,42 @@ fn run(ctx: &Ctx) -> ShardOut {
                             if len <= mt_len && heavy_ok && sched::available() {
                                 let bound = 2;
                                 check_multi(&mut out, ctx, op, *w, cfg, &stream, &single, bound);
+                            }
+                        }
+                    }
+                }
+            }
+        }
+    }
+    // Sparse streams: gaps {1,5} exceed every window width, so windows close EMPTY between non-empty
+    // firings (an event landing on a slide boundary after a silence opens an already-closed empty
+    // window). ISTREAM / DSTREAM must compare with that empty firing, not with the last non-empty one.
+    let sparse: Vec<usize> = vec![1, 5];
+    'sparse: for (oi, op) in OPS.iter().enumerate() {
+        for (wi, w) in WINDOWS.iter().enumerate() {
+            for (ci, cfg) in cfgs.iter().enumerate() {
+                for len in 2..=maxlen {
+                    for stream in streams(len, &sparse) {
+                        if stream.windows(2).all(|p| p[1].1 - p[0].1 < 5) {
+                            continue; // no silence: already part of the dense family
+                        }
+                        idx += 1;
+                        if !ctx.mine(idx) {
+                            continue;
+                        }
+                        if idx % 64 == 0 && ctx.expired() {
+                            out.capped.push(format!("wall-clock cap hit in the sparse-stream family at {} {:?} {} length {}", op, w, cfg.name, len));
+                            break 'sparse;
+                        }
+                        out.count("sparse_streams", 1);
+                        if probe_contents(w.0, w.1, &stream).windows(3).any(|f| !f[0].is_empty() && f[1].is_empty() && !f[2].is_empty()) {
+                            out.count("sparse_streams_with_empty_firing_between_non_empty", 1);
+                        }
+                        let single = check_single(&mut out, op, *w, cfg, &stream);
+                        if let Some(single) = single {
+                            let heavy_ok = ctx.thorough() || (oi + wi + ci) % 2 == 0;
+                            if len <= 3 && heavy_ok && sched::available() {
+                                check_multi(&mut out, ctx, op, *w, cfg, &stream, &single, 2);
                             }
                         }
                     }
